@@ -14,6 +14,7 @@ import (
 	"math/rand"
 	"os"
 	"path/filepath"
+	"regexp"
 	"sort"
 	"strings"
 	"sync"
@@ -231,6 +232,16 @@ func init() {
 					"fmtfail/types.go": "package fmtfail\n\ntype S struct{ A string }\ntype D struct{ A string }\n",
 				}})
 		}
+		if *prop == "C13" {
+			// a :literal that mentions a package the setup file does not import, whose name two standard packages share:
+			// the import is added by goimports
+			bases = append(bases, GCase{Name: "ambigimp", Setup: "ambigimp/setup.go", Profile: "simple", Features: []string{"unimported-package-in-literal"},
+				Files: map[string]string{
+					"ambigimp/setup.go": "//go:build convergen\n\npackage ambigimp\n\ntype Convergen interface {\n\t// :literal Safe template.HTMLEscapeString(\"a<b\")\n\tConv(*S) *D\n}\n",
+					"ambigimp/types.go": "package ambigimp\n\ntype S struct{ A string }\ntype D struct {\n\tA    string\n\tSafe string\n}\n",
+				}})
+			*nBases++
+		}
 		for i := 0; len(bases) < *nBases && i < 20**nBases; i++ {
 			prof := "simple"
 			if i%5 == 4 {
@@ -296,7 +307,8 @@ func init() {
 						spellings = append(spellings, "dotgo")
 					}
 					for _, sp := range spellings {
-						states := []string{"absent", "stale"}
+						// "current": the output path already holds exactly what this run writes (an earlier identical run)
+						states := []string{"absent", "stale", "current"}
 						hasOut := false
 						for _, f := range fset {
 							if f == "-out" {
@@ -318,6 +330,13 @@ func init() {
 				for _, sp := range []string{"rel", "abs", "pkgdir", "gofile", "dotrel", "rel", "abs", "rel", "rel", "pkgdir", "rel", "abs"} {
 					scenarios = append(scenarios, RunScenario{Base: c.Name, Kind: "repeat", OutState: "absent",
 						Argv: spellArgs(c, nil, sp).Argv, Gofile: spellArgs(c, nil, sp).Gofile, Cwd: spellArgs(c, nil, sp).Cwd})
+				}
+				if movable(c) {
+					// the same package under names that contain ".go" before the extension, relative and absolute
+					for _, sp := range []string{"dotgo", "dotgoabs", "dotgo"} {
+						scenarios = append(scenarios, RunScenario{Base: c.Name, Kind: "repeat", OutState: "absent", Spelling: sp,
+							Argv: spellArgs(c, nil, sp).Argv, Gofile: spellArgs(c, nil, sp).Gofile, Cwd: spellArgs(c, nil, sp).Cwd})
+					}
 				}
 				// the same runs over what an earlier run (or anything else) left at the output path, written after the sources:
 				// file times and leftovers are not inputs
@@ -351,7 +370,7 @@ func init() {
 					_ = os.MkdirAll(work, 0755)
 					_ = os.WriteFile(filepath.Join(work, "go.mod"), []byte("module exp\n\ngo 1.21\n"), 0644)
 					_ = copyTree(filepath.Join(pristine, sc.Base), filepath.Join(work, sc.Base))
-					if sc.Spelling == "dotgo" {
+					if sc.Spelling == "dotgo" || sc.Spelling == "dotgoabs" {
 						// the same package under a directory and a file name that contain ".go"
 						_ = os.MkdirAll(filepath.Join(work, "svc.golang"), 0755)
 						_ = os.Rename(filepath.Join(work, sc.Base), filepath.Join(work, "svc.golang", sc.Base))
@@ -426,6 +445,10 @@ func init() {
 					mw := map[string]bool{}
 					for _, w := range p.Writes {
 						mw[filepath.Clean(filepath.Join(o.Scenario.Cwd, relCwd(w)))] = true
+					}
+					if o.Scenario.OutState == "current" && ref.Kind == "ok" && o.Before != nil && *o.Before == ref.Bytes {
+						// rewriting the bytes that are there already is no change of the tree
+						delete(mw, filepath.Clean(filepath.Join(o.Scenario.Cwd, o.OutPath)))
 					}
 					iw := map[string]bool{}
 					for _, c := range o.Changed {
@@ -535,7 +558,11 @@ func init() {
 				}
 			}
 			if o.Scenario.Kind == "repeat" {
-				repeatGroups[o.Scenario.Base] = append(repeatGroups[o.Scenario.Base], o)
+				g := o.Scenario.Base
+				if strings.HasPrefix(o.Scenario.Spelling, "dotgo") {
+					g += "|dotgo" // other file names: compared among themselves
+				}
+				repeatGroups[g] = append(repeatGroups[g], o)
 			}
 		}
 		// C13: all repetitions of a base agree on exit, canonical stderr and output bytes
@@ -548,18 +575,25 @@ func init() {
 					(((o.Output == nil) == (first.Output == nil)) && (o.Output == nil || *o.Output == *first.Output))
 				same := o.CLI.Exit == first.CLI.Exit && fmt.Sprint(canonRunStderr(o)) == fmt.Sprint(canonRunStderr(first)) && sameOut
 				if !same {
-					rp := filepath.Join(*replayDir, "judge-C13-"+base+".json")
+					rp := filepath.Join(*replayDir, "judge-C13-"+strings.ReplaceAll(base, "|", "-")+".json")
 					_ = os.MkdirAll(*replayDir, 0755)
 					var files map[string]string
 					setup := ""
 					for _, bc := range bases {
-						if bc.Name == base {
+						if bc.Name == strings.TrimSuffix(base, "|dotgo") {
 							files, setup = bc.Files, bc.Setup
 						}
 					}
 					b, _ := json.MarshalIndent(map[string]any{"a": first, "b": o, "files": files, "setup": setup}, "", " ")
 					_ = os.WriteFile(rp, b, 0644)
-					sum.Judgements = append(sum.Judgements, Judgement{Property: "C13", Case: base, Key: "C13|runs-differ",
+					key := "C13|runs-differ"
+					if o.CLI.Exit == first.CLI.Exit && fmt.Sprint(canonRunStderr(o)) == fmt.Sprint(canonRunStderr(first)) &&
+						o.Output != nil && first.Output != nil && onlyAddedImportsDiffer(*first.Output, *o.Output, files[setup]) {
+						// the runs agree on everything but the path of an import that the setup file does not have:
+						// goimports resolved a package name that several packages share
+						key = "C13|runs-differ|unimported-package-resolved-by-goimports"
+					}
+					sum.Judgements = append(sum.Judgements, Judgement{Property: "C13", Case: base, Key: key,
 						What: fmt.Sprintf("two runs of %s differ (%v vs %v)", base, first.Scenario.Argv, o.Scenario.Argv), Replay: rp})
 					break
 				}
@@ -685,6 +719,13 @@ func spellArgs(c GCase, flags []string, spelling string) spelled {
 			argv = append(argv, "-out", outName(filepath.Join("svc.golang", filepath.Dir(setup))))
 		}
 		argv = append(argv, moved)
+	case "dotgoabs":
+		// the same place, spelled as an absolute path (".go" occurs in a directory name before the extension)
+		moved := filepath.Join("svc.golang", filepath.Dir(setup), "user.gorm.go")
+		if outArg != "" {
+			argv = append(argv, "-out", "ABS/"+outName(filepath.Join("svc.golang", filepath.Dir(setup))))
+		}
+		argv = append(argv, "ABS/"+moved)
 	}
 	s.Argv = argv
 	return s
@@ -740,6 +781,32 @@ func buildScenario(c GCase, flags []string, spelling, state string) RunScenario 
 	return sc
 }
 
+var reImportLine = regexp.MustCompile(`^\s*(import\s+)?(\w+\s+)?"([^"]+)"\s*$`)
+
+// onlyAddedImportsDiffer: the two outputs differ in import lines only, and every differing import path is one the
+// setup file does not import itself
+func onlyAddedImportsDiffer(a, b, setupSrc string) bool {
+	count := map[string]int{}
+	for _, l := range strings.Split(a, "\n") {
+		count[l]++
+	}
+	for _, l := range strings.Split(b, "\n") {
+		count[l]--
+	}
+	n := 0
+	for l, c := range count {
+		if c == 0 {
+			continue
+		}
+		m := reImportLine.FindStringSubmatch(l)
+		if m == nil || strings.Contains(setupSrc, `"`+m[3]+`"`) {
+			return false
+		}
+		n++
+	}
+	return n > 0
+}
+
 // runScenario prepares the state, runs the CLI, snapshots and asks the model.
 func runScenario(cli string, drv *Driver, work string, sc RunScenario, ref coreRef) (runOutcome, *RunPrediction) {
 	abs := func(a string) string { return strings.ReplaceAll(a, "ABS/", work+"/") }
@@ -763,6 +830,11 @@ func runScenario(cli string, drv *Driver, work string, sc RunScenario, ref coreR
 		case sc.OutState == "stale":
 			_ = os.MkdirAll(filepath.Dir(op), 0755)
 			_ = os.WriteFile(op, []byte("// stale\npackage "+sc.Base+"\n\nfunc staleLeftover() {}\n"), 0644)
+		case sc.OutState == "current":
+			if ref.Kind == "ok" {
+				_ = os.MkdirAll(filepath.Dir(op), 0755)
+				_ = os.WriteFile(op, []byte(ref.Bytes), 0644)
+			}
 		case sc.OutState == "dirAtPath":
 			_ = os.MkdirAll(op, 0755)
 		case sc.OutState == "otherName":
